@@ -274,6 +274,7 @@ class World:
         self.cursor_compare = {}    # (unit, fname) -> why: in this function `c != e` for two cursors means c is before e in the list (c is not the marker)
         self.zero_fields = {}       # (record, field) -> why: integer fields that hold a value of the input (any value, 0 included)
         self.zero_rets = {}         # fname -> src: integer functions that can return such a value (derived, transitively)
+        self.zero_params = {}       # (fname, i) -> src: integer parameters that receive such a value unchecked at some call (used for divisions in the callee only)
         self.mustdiv = {}           # (fname, i) -> True: the function divides by its i-th parameter unconditionally (one-level summaries, transitive)
         self.evaluators = set()     # functions that compute the value of an expression node (first parameter): outcomes of tests on their results are remembered
         self.enum_universe = {}
@@ -498,6 +499,7 @@ class Engine:
         self.divs = {}         # (node id, how) -> dict: integer divisions / arguments handed to a parameter the callee divides by
         self.mustdiv = set()   # indices of parameters this function divides by unconditionally
         self.zrets = []        # sources of may-be-zero input values this function returns
+        self.zero_args = {}    # (callee, i) -> src: may-be-zero input values handed on unchecked
         self.fstores = []      # (record, field, class, src, node): stores of integer values into record fields
         self.evlocals = {}     # local (declared with an initializer, never assigned again) -> key of the evaluator call it holds
         self.ev_black = set()
@@ -681,6 +683,9 @@ class Engine:
                 src = self.W.nullable_params.get((self.fname, i))
                 if src is not None and is_ptr_type(t):
                     v.nul, v.src = 'N', src
+                zsrc = self.W.zero_params.get((self.fname, i))
+                if zsrc is not None and not is_ptr_type(t) and len(self.W.fn_unit.get(self.fname, ())) == 1:
+                    v.nul, v.src = 'N', zsrc
                 if v.vs is None and not is_ptr_type(t):
                     v.rk = ('param', i)
             elif p.startswith('G:') and e.ref_name in self.W.nullable_globals:
@@ -997,7 +1002,7 @@ class Engine:
                     r.nul, r.src = 'N', (va.src if ca == 'z' else vb.src)        # a product with a may-be-zero factor
                 elif ca == 'nz' and cb == 'nz':
                     r.nul = 'NN'
-                    r.src = va.src if (va.src and va.src[0] == 'zero') else (vb.src if (vb.src and vb.src[0] == 'zero') else None)
+                    r.src = va.src if (va.src and va.src[0] in ZSRC) else (vb.src if (vb.src and vb.src[0] in ZSRC) else None)
                 for x, cx, y in ((va, ca, vb), (vb, cb, va)):
                     if cx == 'nz' and x.const is not None and x.path is None:
                         r.zp = y.path if y.path is not None else y.zp             # path * c is zero exactly when path is
@@ -1027,7 +1032,7 @@ class Engine:
                     return 'nz'
         if v.nul == 'NN':
             return 'nz'
-        if v.nul in ('N', 'NULL') and v.src is not None and v.src[0] == 'zero':
+        if v.nul in ('N', 'NULL') and v.src is not None and v.src[0] in ZSRC:
             return 'z'
         if v.nul == 'NULL' and v.path is not None:
             return 'zero'
@@ -1058,7 +1063,7 @@ class Engine:
         signed = 'unsigned' not in t and t not in ('_Bool', 'bool')
         ovf = None
         if how in ('/', '%') and signed and va is not None:
-            inp = lambda v: v.src is not None and v.src[0] == 'zero'
+            inp = lambda v: v.src is not None and v.src[0] in ZSRC
             if inp(va) and inp(vb) and va.const is None and vb.const is None:
                 # both operands are values of the input: the most negative value divided by -1 traps on the host like a zero divisor
                 ovf = 'ok' if self.excludes(S, vb, -1) else 'bad'
@@ -1254,6 +1259,8 @@ class Engine:
                 self.check_deref(s, v, args[i], 'arg%d of %s()' % (i + 1, c))
             if self.W.mustdiv.get((c, i)) and self.W.resolve(self.u, c) is not None:
                 self.note_div(s, args[i], 'arg%d of %s()' % (i + 1, c), None, v, args[i])
+            if v.src is not None and v.src[0] in ZSRC and (c, i) not in self.zero_args and not is_ptr_type(args[i].type) and self.zclass(s, v) == 'z':
+                self.zero_args[(c, i)] = v.src
         if c in self.W.noreturn:
             self.exited = True
             return
@@ -1515,7 +1522,7 @@ class Engine:
             return False
         if v.path in self.evlocals:
             return True
-        return v.src is not None and v.src[0] == 'zero' and v.nul in ('N', 'NN', 'NULL')
+        return v.src is not None and v.src[0] in ZSRC and v.nul in ('N', 'NN', 'NULL')
 
     def compare(self, S, va, vb, na, nb):
         """states where va == vb, states where va != vb"""
@@ -1529,6 +1536,12 @@ class Engine:
                 for st in F:
                     st.nul[pv.path] = ('NN', pv.src)
                     self.ev_outcome(pv.path, st, None)
+            elif pv.path is None and isinstance(pv.ctype, tuple) and pv.ctype[0].startswith('value-of(') and cv.path is None and cv.const == 0:
+                # `eval(x) == 0`: the outcome of the evaluator call itself
+                for st in T:
+                    st.pc[pv.ctype[0]] = (False, pv.ctype[1])
+                for st in F:
+                    st.pc[pv.ctype[0]] = (True, pv.ctype[1])
         return T, F
 
     def compare0(self, S, va, vb, na, nb):
@@ -1840,6 +1853,16 @@ class Engine:
         if v.const is not None and v.path is None:
             hit = any(x[0] == v.const for x in vals)
             return S if hit == positive else None
+        pk = v.ctype if (v.path is None and isinstance(v.ctype, tuple) and v.ctype[0].startswith('value-of(')) else self.evlocals.get(v.path)
+        if pk is not None and vals:
+            # a switch on the value of an expression node: which outcome (zero / nonzero) this arm stands for
+            has0 = any(x[0] == 0 for x in vals)
+            if positive:
+                outcome = False if all(x[0] == 0 for x in vals) else (None if has0 else True)
+            else:
+                outcome = True if has0 else None
+            if outcome is not None and not any(_root(q) in self.assigned_params for q in pk[1]):
+                S.pc[pk[0]] = (outcome, pk[1])
         if v.path is None:
             return S
         names = frozenset((x[1] if x[1] is not None else x[0]) for x in vals)
@@ -1995,6 +2018,7 @@ class Engine:
         return {'T': out['T'], 'F': out['F']}
 
 
+ZSRC = ('zero', 'zerop')     # provenance kinds of integer values of the input: 'zerop' = received through a parameter (judged at divisions only)
 PROPAGATING = ('null', 'param', 'ret', 'arg', 'global')
 
 
@@ -2030,6 +2054,10 @@ def solve(W, max_rounds=12):
                         continue
                     if (c, i) not in W.nullable_params:
                         W.nullable_params[(c, i)] = ('param', 'NULL can be passed by %s()' % f)
+                        touched.add('=' + c)
+                for (c, i), src in eng.zero_args.items():
+                    if len(W.fn_unit.get(c, ())) == 1 and (c, i) not in W.zero_params:
+                        W.zero_params[(c, i)] = ('zerop', 'parameter %d of %s()' % (i + 1, c), '%s() passes %s unchecked' % (f, src[1]))
                         touched.add('=' + c)
                 for i in eng.mustdiv:
                     if not W.mustdiv.get((f, i)) and len(W.fn_unit.get(f, ())) == 1:
